@@ -55,7 +55,7 @@ structure Acc where
 
 /-- an active non-structural line -/
 def plainAct (a : Acc) : Plain → Acc
-  | .text s => { a with out := a.out ++ [expandChars a.defs expandDepth s] }
+  | .text s => { a with out := a.out ++ [expandLine a.defs s] }
   | .define n m => { a with defs := a.defs.set n m }
   | .undef n => { a with defs := a.defs.erase n }
   | .error => { a with errs := a.errs + 1 }
